@@ -9,6 +9,8 @@ import (
 // Item is one absorbed (value, weight) pair.
 type Item struct {
 	V, W float64
+	// Raw is the value as absorbed; Sorted sets V to 0 for sub-minimum magnitudes and keeps Raw.
+	Raw float64
 }
 
 // RefSketch is the reference model of a sketch: zero weight, positive and
@@ -19,17 +21,29 @@ type Item struct {
 type RefSketch struct {
 	Pos, Neg *RefStore
 	Zero     float64
-	Items    []Item
+	// Vals is the absorbed multiset: value bits -> accumulated weight (merging a
+	// sketch into itself's descendants repeatedly must not blow the model up).
+	Vals map[uint64]float64
+	// NonUnit: some weight other than 1 was absorbed, or the sketch was re-weighted.
+	NonUnit bool
 	// Scale history is folded into Items (weights are rescaled in place).
 	Tainted bool
+	// Lossy: some absorbed content came from a bounded store that had already
+	// folded bins, so the absorbed values no longer describe the bins; only
+	// bin-level oracles apply.
+	Lossy bool
 }
 
 func NewRefSketch(kind string, n int) *RefSketch {
-	return &RefSketch{Pos: NewRefStore(kind, n), Neg: NewRefStore(kind, n)}
+	return &RefSketch{Pos: NewRefStore(kind, n), Neg: NewRefStore(kind, n), Vals: map[uint64]float64{}}
 }
 
 func (s *RefSketch) Clone() *RefSketch {
-	return &RefSketch{Pos: s.Pos.Clone(), Neg: s.Neg.Clone(), Zero: s.Zero, Items: append([]Item(nil), s.Items...), Tainted: s.Tainted}
+	c := &RefSketch{Pos: s.Pos.Clone(), Neg: s.Neg.Clone(), Zero: s.Zero, Vals: make(map[uint64]float64, len(s.Vals)), Tainted: s.Tainted, Lossy: s.Lossy, NonUnit: s.NonUnit}
+	for k, v := range s.Vals {
+		c.Vals[k] = v
+	}
+	return c
 }
 
 // CloneAs clones the content into stores of another kind (decode / rebuild
@@ -44,8 +58,10 @@ func (s *RefSketch) Clear() {
 	s.Pos.Clear()
 	s.Neg.Clear()
 	s.Zero = 0
-	s.Items = nil
+	s.Vals = map[uint64]float64{}
+	s.NonUnit = false
 	s.Tainted = false
+	s.Lossy = false
 }
 
 // Absorb records a value the real sketch accepted. side: +1 positive store,
@@ -62,7 +78,10 @@ func (s *RefSketch) Absorb(v, w float64, side, index int) {
 	default:
 		s.Zero += w
 	}
-	s.Items = append(s.Items, Item{v, w})
+	s.Vals[math.Float64bits(v)] += w
+	if w != 1 {
+		s.NonUnit = true
+	}
 }
 
 // MergeFrom adds the observable content of o (folded, if o is bounded).
@@ -70,9 +89,17 @@ func (s *RefSketch) MergeFrom(o *RefSketch) {
 	s.Pos.MergeFrom(o.Pos)
 	s.Neg.MergeFrom(o.Neg)
 	s.Zero += o.Zero
-	s.Items = append(s.Items, o.Items...)
+	for k, w := range o.Vals {
+		s.Vals[k] += w
+	}
+	if o.NonUnit {
+		s.NonUnit = true
+	}
 	if o.Tainted {
 		s.Tainted = true
+	}
+	if o.Lossy || o.Folded() {
+		s.Lossy = true
 	}
 }
 
@@ -80,8 +107,11 @@ func (s *RefSketch) Scale(w float64) {
 	s.Pos.Scale(w)
 	s.Neg.Scale(w)
 	s.Zero *= w
-	for i := range s.Items {
-		s.Items[i].W *= w
+	for k := range s.Vals {
+		s.Vals[k] *= w
+	}
+	if w != 1 {
+		s.NonUnit = true
 	}
 }
 
@@ -113,21 +143,41 @@ func (s *RefSketch) FitsAfter(extra float64, g int) bool {
 	return (s.Count()+extra+1)*math.Ldexp(1, -g) < (1 << 50)
 }
 
+// ItemAt returns the item holding the order statistic of 0-based rank k in a
+// sorted item list with integer multiplicities.
+func ItemAt(items []Item, k int64) Item {
+	cum := 0.0
+	for _, it := range items {
+		cum += it.W
+		if float64(k) < cum {
+			return it
+		}
+	}
+	return items[len(items)-1]
+}
+
 // Sorted returns the absorbed items in ascending value order, with every
 // magnitude below minIndexable replaced by 0 ("values closer to zero than the
 // smallest indexable magnitude count as 0").
 func (s *RefSketch) Sorted(minIndexable float64) []Item {
-	out := make([]Item, 0, len(s.Items))
-	for _, it := range s.Items {
+	out := make([]Item, 0, len(s.Vals))
+	for bits, w := range s.Vals {
+		it := Item{V: math.Float64frombits(bits), W: w}
 		if it.W == 0 {
 			continue
 		}
+		it.Raw = it.V
 		if math.Abs(it.V) < minIndexable {
 			it.V = 0
 		}
 		out = append(out, it)
 	}
-	sort.SliceStable(out, func(i, j int) bool { return out[i].V < out[j].V })
+	sort.Slice(out, func(i, j int) bool {
+		if out[i].Raw != out[j].Raw {
+			return out[i].Raw < out[j].Raw
+		}
+		return math.Signbit(out[i].Raw) && !math.Signbit(out[j].Raw) // -0 before +0: a total order
+	})
 	return out
 }
 
@@ -135,7 +185,7 @@ func (s *RefSketch) Sorted(minIndexable float64) []Item {
 func (s *RefSketch) ExactSum() (sum, abs *big.Float) {
 	sum = new(big.Float).SetPrec(2400)
 	abs = new(big.Float).SetPrec(2400)
-	for _, it := range s.Items {
+	for _, it := range s.Sorted(0) {
 		t := new(big.Float).SetPrec(2400).SetFloat64(it.V)
 		t.Mul(t, new(big.Float).SetPrec(2400).SetFloat64(it.W))
 		sum.Add(sum, t)
@@ -146,7 +196,7 @@ func (s *RefSketch) ExactSum() (sum, abs *big.Float) {
 
 // TrueMinMax returns the extremes of the absorbed values with positive weight.
 func (s *RefSketch) TrueMinMax() (lo, hi float64, ok bool) {
-	for _, it := range s.Items {
+	for _, it := range s.Sorted(0) {
 		if it.W <= 0 {
 			continue
 		}
@@ -181,4 +231,12 @@ func FloorCeil(r *big.Rat) (int64, int64) {
 		c.Add(c, big.NewInt(1))
 	}
 	return fl.Int64(), c.Int64()
+}
+
+// Folded reports whether either side currently has content folded at its
+// collapsing edge.
+func (s *RefSketch) Folded() bool {
+	_, a := s.Pos.Edge()
+	_, b := s.Neg.Edge()
+	return a || b
 }
